@@ -15,7 +15,7 @@ use vpmodel::spec::{mono, ChainSpec};
 pub const DEF: PropDef = PropDef {
     id: "C10",
     level: "fault_enumeration",
-    rule: "fault plans applied to generated chains stored in 2..4 blk files, for the three file-producing callbacks. Enumerated part (fixed generated 6-block chain): every height x input fault {blk file removed, emptied, truncated at 7 positions of the block incl. inside the length prefix and at the last byte, index offset past EOF}; 27 RLIMIT_FSIZE limits from 0 to above the largest output file (SIGXFSZ ignored, so writes fail with EFBIG) on an index pre-compacted to table files; ENOSPC injected (strace) at the k-th write to a dump file for k=1..8; SIGKILL injected on entry of the k-th openat/write/rename/close touching a dump file for k=1..6 each. One enumerated chain produces > 4 MB per file so that writes fail mid-run, before the final flush. Random part: random chains, ranges and fault plans. Oracles: (a) exit 0 => every expected final-named file present and byte-identical to the undisturbed run, no *.tmp; (b) input fault hitting a processed height h => exit != 0, 'Error at height h', no final-named file; (c) output fault that fires => exit != 0 and no final-named file; (d) kill at any point => every final-named file that exists is byte-identical to the undisturbed output. Non-trivial = the fault actually fired in the read/write path of the run (not at start-up); distinct by (callback, fault kind, position).",
+    rule: "fault plans applied to generated chains stored in 2..4 blk files, for the three file-producing callbacks. Enumerated part (fixed generated 6-block chain): every height x input fault {blk file removed, emptied, truncated at 7 positions of the block incl. inside the length prefix and at the last byte, index offset past EOF}; 27 RLIMIT_FSIZE limits from 0 to above the largest output file (SIGXFSZ ignored, so writes fail with EFBIG) on an index pre-compacted to table files; ENOSPC injected (strace) at the k-th write to a dump file for k=1..8; SIGKILL injected on entry of the k-th openat/write/rename/close touching a dump file for k=1..6 each. One enumerated chain produces > 4 MB per file so that writes fail mid-run, before the final flush. Random part: random chains, ranges and fault plans, a quarter of them into a dump folder that already holds longer stale *.tmp files of an earlier failed run. Oracles: (a) exit 0 => every expected final-named file present and byte-identical to the undisturbed run, no *.tmp; (b) input fault hitting a processed height h => exit != 0, 'Error at height h', no final-named file; (c) output fault that fires => exit != 0 and no final-named file; (d) kill at any point => every final-named file that exists is byte-identical to the undisturbed output. Non-trivial = the fault actually fired in the read/write path of the run (not at start-up); distinct by (callback, fault kind, position).",
     assumptions: &["crash points are syscall-granular (the directory can only change at syscalls); power loss / fsync ordering is outside the statement", "physical order inside a file equals height order, so the first height lost by a truncation is the truncated block's"],
     run,
     replay,
@@ -43,6 +43,9 @@ pub struct Case {
     pub start: Option<u16>,
     pub end: Option<u16>,
     pub fault: Fault,
+    /// the dump folder already holds longer *.tmp files left by an earlier failed run
+    #[serde(default)]
+    pub stale_tmp: bool,
 }
 
 fn layout_for(nfiles: usize, nblocks: usize) -> LayoutSpec {
@@ -154,6 +157,12 @@ pub fn check(c: &Case) -> Verdict {
     // faulted run
     let p = infra!(prepare(c, &built, s, e, true));
     let dump = p.scratch.sub("dump");
+    if c.stale_tmp {
+        let junk = vec![b'~'; (max_size as usize) * 2 + 100_000];
+        for stem in c.cb.stems() {
+            infra!(std::fs::write(dump.join(format!("{}.csv.tmp", stem)), &junk).map_err(|e| e.to_string()));
+        }
+    }
     let mut of = o.clone();
     let mut limit = None;
     match &c.fault {
@@ -169,6 +178,12 @@ pub fn check(c: &Case) -> Verdict {
     let out = infra!(vpmodel::run::run_tool(&p.data, &dump, &of));
     if out.timed_out {
         return Verdict::Infra(format!("faulted run hit the watchdog: {}", out.describe()));
+    }
+    if of.inject.is_some() {
+        let e = String::from_utf8_lossy(&out.stderr);
+        if e.contains("strace: ") && (e.contains("Operation not permitted") || e.contains("PTRACE") || e.contains("ptrace(")) {
+            return Verdict::Infra(format!("strace cannot trace in this environment: {}", out.describe()));
+        }
     }
     let injected = String::from_utf8_lossy(&out.stderr).contains("(INJECTED)") || out.signal == Some(9);
     let stderr = out.stderr_text();
@@ -325,8 +340,10 @@ fn enumerated(seed: u64, tier: Tier) -> Vec<Case> {
     let mut v = Vec::new();
     let hsel = |i: u32| (((i as u64) * 65536 + nb as u64 - 1) / nb as u64) as u16;
     for cb in FILE_CALLBACKS {
-        let mk = |fault: Fault| Case { chain: chain.clone(), nfiles: 3, cb, start: None, end: None, fault };
+        let mk = |fault: Fault| Case { chain: chain.clone(), nfiles: 3, cb, start: None, end: None, fault, stale_tmp: false };
         v.push(mk(Fault::None));
+        v.push(Case { stale_tmp: true, ..mk(Fault::None) });
+        v.push(Case { stale_tmp: true, ..mk(Fault::Kill { syscall: "rename".into(), k: 1 }) });
         for i in 0..nb {
             v.push(mk(Fault::FileRemoved { h: hsel(i) }));
             v.push(mk(Fault::FileEmptied { h: hsel(i) }));
@@ -353,7 +370,7 @@ fn enumerated(seed: u64, tier: Tier) -> Vec<Case> {
     let nfat = if tier == Tier::Quick { 32 } else { 70 };
     let fat = fixed_chain(seed, nfat, true);
     for cb in [Callback::CsvDump] {
-        let mk = |fault: Fault| Case { chain: fat.clone(), nfiles: 2, cb, start: None, end: None, fault };
+        let mk = |fault: Fault| Case { chain: fat.clone(), nfiles: 2, cb, start: None, end: None, fault, stale_tmp: false };
         for (num, delta) in [(1u32, 0i32), (4, 0), (7, 0), (8, -1), (8, 0)] {
             v.push(mk(Fault::Fsize { num, den: 8, delta }));
         }
@@ -376,7 +393,7 @@ fn random_strategy(tier: Tier) -> BS<Case> {
         2 => (1u32..10).prop_map(|k| Fault::Enospc { k }),
         4 => (proptest::sample::select(vec!["openat", "write", "rename", "close"]), 1u32..8).prop_map(|(s, k)| Fault::Kill { syscall: s.to_string(), k }),
     ];
-    (gen::chain(&chain_cfg(tier)), 2u8..=4, proptest::sample::select(FILE_CALLBACKS.to_vec()), proptest::option::weighted(0.3, any::<u16>()), proptest::option::weighted(0.3, any::<u16>()), fault).prop_map(|(chain, nfiles, cb, start, end, fault)| Case { chain, nfiles, cb, start, end, fault }).boxed()
+    (gen::chain(&chain_cfg(tier)), 2u8..=4, proptest::sample::select(FILE_CALLBACKS.to_vec()), proptest::option::weighted(0.3, any::<u16>()), proptest::option::weighted(0.3, any::<u16>()), fault, proptest::bool::weighted(0.25)).prop_map(|(chain, nfiles, cb, start, end, fault, stale_tmp)| Case { chain, nfiles, cb, start, end, fault, stale_tmp }).boxed()
 }
 
 fn run(eng: &Engine, a: &Args) {
